@@ -28,6 +28,9 @@ structure FInv (st : State) : Prop where
     f ∈ (st.tasks u).hwaiters ∨ (st.tasks u).finished = true
   sj_woken : ∀ t g u s e f, (st.tasks t).lib = .startJoin g u s e → (st.tasks t).st = .woken f →
     st.futs f = .result → (st.tasks u).finished = true
+  fut_dflt : ∀ f, st.nFuts ≤ f → st.futs f = .pending
+  fail_ne : ∀ f, st.futs f ≠ .failed .none
+  lib_created : ∀ t, (st.tasks t).st = .created → (st.tasks t).lib = .none
 
 /-- `f` has just been allocated -/
 structure Fresh (st : State) (f : Nat) : Prop where
@@ -125,6 +128,20 @@ theorem finv_fsame {a b : State} (h : FInv a) (s : FSame a b) : FInv b := by
     have := h.sj_woken t g u sc e f hlib
     have := hst t
     have := hfu f
+    grind
+  · intro f hf
+    rw [s.nFuts] at hf
+    rcases hfu f with e | ⟨_, _, t, ht⟩
+    · rw [e]; exact h.fut_dflt f hf
+    · have := h.blk_lt t f (.inl ht); omega
+  · intro f hc
+    rcases hfu f with e | ⟨_, ⟨an, ha⟩, _⟩
+    · rw [e] at hc; exact h.fail_ne f hc
+    · rw [ha] at hc; cases hc
+  · intro t hc
+    rw [hl]
+    have := h.lib_created t
+    have := hst t
     grind
 
 theorem fresh_fsame {a b : State} {f : Nat} (h : Fresh a f) (s : FSame a b) : Fresh b f := by
